@@ -61,6 +61,8 @@ func restProcs(web int) []sc.ProcSpec {
 		{Name: "job", Command: "job", Restart: "on_failure", MaxRestarts: 1},
 		{Name: "late", Command: "late", Deps: []sc.Dep{{On: "job", Cond: "process_completed"}}},
 		{Name: "off", Command: "off", Disabled: true},
+		// a legal name that needs escaping on its way through a URL path and a query string
+		{Name: "my job", Command: "myjob"},
 	}
 }
 
@@ -175,7 +177,7 @@ func clientSafe(s string) bool {
 		return false
 	}
 	for _, r := range s {
-		if !(r >= 'a' && r <= 'z' || r >= 'A' && r <= 'Z' || r >= '0' && r <= '9' || r == '_' || r == '-' || r == '.') {
+		if !(r >= 'a' && r <= 'z' || r >= 'A' && r <= 'Z' || r >= '0' && r <= '9' || r == '_' || r == '-' || r == '.' || r == ' ') {
 			return false
 		}
 	}
@@ -613,7 +615,7 @@ func genRest(t *rapid.T) RestCase {
 		return fmt.Sprintf("web-%d", i%cur)
 	}
 	targets := func() string {
-		return pbt.Pick(t, []string{webName(0), webName(1), "job", "late", "off", webName(2)})
+		return pbt.Pick(t, []string{webName(0), webName(1), "job", "late", "off", webName(2), "my job"})
 	}
 	anyName := func() string {
 		if pbt.Pct(t, 30) {
